@@ -165,7 +165,7 @@ template <template <class> class C> struct Run {
             }
             if (is_rebuild) r.tag("rebuild");
         } catch (const amgcl::error::empty_level&) { l << "empty_level"; }
-        catch (const std::exception &e) { l << "precondition"; }
+        catch (const std::exception &e) { if (getenv("VH_DEBUG")) std::cerr << "exception: " << e.what() << "\n"; l << "precondition"; }
 #ifdef _OPENMP
         omp_set_num_threads(1);
 #endif
